@@ -25,11 +25,20 @@ chk('C14', MC,
     'CBMC on the real vm.c/heap.c: for every opcode and operand-kind tuple (incl. aliasing and containers of strings), one instruction from any state satisfying the reference-count invariant preserves it: nothing referenced is freed, ref_count >= (and, for non-trapping steps, ==) in-degree + hidden references, nothing freed twice, new reachable objects are live.',
     'One inductive step per opcode from constructed pre-states (<= 8 objects, nesting container->string); free() replaced by a ghost recorder; the whole-program churn bound is decided only through the per-instruction no-leak equality.',
     'CBMC bounded model checking of one VM step with a ghost-free reference audit', 'DESIGN.md 4/C14')
-HOOK_COMMITS = ['0398903']
+HOOK_COMMITS = ['0398903', 'a2e00e4']
 FE = 'fault_enumeration'
+TV = 'translation_validation'
+chk('C01', TV,
+    'Program-level translation validation with a solver: for each program of a generated family (every int/bool operator, nesting, infix spelling, evaluation order and short circuit with printing operands, if/else, while with break/continue, block shadowing, calls, string literals, enums, globals) the C emitted by the real nanoc and the bytecode emitted by the real nano_virt are executed symbolically side by side - the bytecode by the real interpreter, one instruction per step under a CFG-specialised driver - for ALL argument values; return value and output trace must agree.',
+    'Bounded to the family (47 programs in quick) and to <= 3 loop iterations; for-in-range, recursion, arrays, structs, tuples gave no verdict and are outside; printf modelled as a piece trace; + - * wrap assumed on the native side; 64-bit * / % equalities via exported SMT2 (z3 + cvc5).',
+    'translation validation: generated C vs real interpreter on generated bytecode, symbolic arguments (CBMC; SMT2 export for * / %)', 'DESIGN.md 3.2, 10.8')
+chk('C04', TV,
+    'On the same generated family: every program the front end accepts gets C that the C compiler accepts (observed on the real nanoc), bytecode that the real verifier accepts (nvm_verify executed under CBMC on the generated module) and, for ALL argument values, a NanoVM run that never ends in a type / undefined / decode / stack error (only documented faults).',
+    'Bounded to the family; the type checker\'s acceptance decision itself is taken from the real tools, not symbolically executed.',
+    'translation validation family + solver-checked absence of internal VM errors for all arguments', 'DESIGN.md 3.2, 10.8')
 chk('C02', MC,
     'Operator kernels only: one real NanoVM instruction per arithmetic/comparison/logic opcode on ALL operand pairs (2^128 int pairs, all float bit patterns) compared with the specified operator (64-bit wrap, truncating total division, mathematical order). + - compare logic via SAT; * / % via CBMC-exported SMT2 decided by z3 and cvc5.',
-    'NanoVM engine only. Native operators, evaluation order, short-circuit lowering, scoping and the Coq relation need program-level translation validation, which was not built; those parts of C02 are NOT claimed (see evidence outside_claim).',
+    'The kernels decide the NanoVM engine against the reference operators; the native engine is tied to the NanoVM by the C01 translation-validation family (same operators, evaluation order, short circuit, shadowing for all arguments). The Coq relation (floor vs truncating division) is not decided.',
     'CBMC one-instruction kernels vs reference operator; SMT2 export + z3/cvc5 for * / %', 'DESIGN.md 4/C02, 10')
 chk('C05', MC,
     'Driver gating only: the real compile_file (nanoc) and nano_virt main run with every phase outcome symbolic; a failed lexer/parser/import/type-check phase gives non-zero status and no code generation, no file opened for writing, no cc/system, no VM run, for every combination of outcomes and the four command-line modes.',
@@ -60,9 +69,7 @@ chk('C20', MC,
     'Inductive single step (covers histories of any length given the invariant). gc.c (no verdict), nl_string.c formatting and generated programs are not decided.',
     'CBMC bounded model checking, inductive step over the dyn_array representation invariant', 'DESIGN.md 4/C20')
 NA = {
- 'C01': 'Program-level translation validation (generated C vs NanoVM via the CFG-specialised driver of DESIGN.md 3.2) was prototyped in the design phase but the generator was not built in the time available; operator-level agreement of the VM with the specification is decided under C02, out-of-range behaviour under C08. Whole-program equivalence is therefore not decided by this technique here.',
  'C03': 'eval.c could not be symbolically executed at useful scale: a one-assert AST through the real eval_statement gave no verdict in 600 s (attempts/shadow_gate.c); only the array builtins of the evaluator are covered (under C08).',
- 'C04': 'Needs the program family + generated artefacts of the translation-validation engine (not built); the per-instruction part (no memory error, documented traps only, verifier meaning) is decided under C13.',
  'C07': 'parser.c under CBMC: parse_program on 3 symbolic tokens did not finish symbolic execution in 5 min (design probe) and the per-function progress-contract harnesses were not built in the time available.',
  'C09': 'tokenize() on a single symbolic byte gave no verdict in 600 s (attempts/lexer_total.c); parser/type checker totality not attempted (see C07).',
  'C17': 'The quantifier is over thread interleavings of whole VM sessions and data races: CBMC cannot carry two interpreter sessions; no bounded encoding within reach. The sequential session path (framing, verification before execution, cleanup) is decided under C18.',
